@@ -18,7 +18,9 @@
 //   -M     PATHHEX|FLAGS|SEG,SEG,…  load a module: segments placed back to back in a fresh region that is followed by
 //          an unmapped page; SEG = OFF:NPAGES:PROT (file-backed, PROT r|rx|rw|n) or g:NPAGES (reserved, PROT_NONE, anonymous);
 //          FLAGS: d = unlink the file once mapped, - = nothing
-//   -w     K:SP  blocked thread K waits with stack pointer SP (0, all-ones, unmapped, …)
+//   -w     K:SP  blocked thread K waits with stack pointer SP (0, all-ones, unmapped, …); K:-OFF = OFF bytes below the
+//          start of its own stack mapping, i.e. inside the 17 inaccessible guard pages in front of it
+//   -D     K:HEXNAME  bytes of the K-th synthetic link_map's name (any bytes, e.g. not valid UTF-8)
 //   -g     install a counting handler for SIGRTMIN+1 (per-thread counters in the shared page)
 //
 // Prints one JSON line describing itself, then "ready".
@@ -119,6 +121,10 @@ static uint64_t lmod_addr[64], lmod_pages[64];
 static int nlmods;
 static int forced[MAXT];
 static uint64_t forced_sp[MAXT];
+static int forced_rel[MAXT];
+static char dname[64][64];
+static int dname_len[64];
+#define GUARD_PAGES 17
 
 static int unhex(const char *s, char *out) {
   int n = 0;
@@ -180,11 +186,12 @@ int main(int argc, char **argv) {
   int nmods = 0;
   long page = sysconf(_SC_PAGESIZE);
   for (int i = 0; i < MAXT; i++) name_len[i] = -1;
+  for (int i = 0; i < 64; i++) dname_len[i] = -1;
   sh = mmap(NULL, (sizeof(struct shared) + page - 1) & ~(page - 1), PROT_READ | PROT_WRITE, MAP_SHARED | MAP_ANONYMOUS, -1, 0);
   memset(sh, 0, sizeof *sh);
 
   int c;
-  while ((c = getopt(argc, argv, "t:s:n:o:S:r:m:M:F:d:gw:")) != -1) {
+  while ((c = getopt(argc, argv, "t:s:n:o:S:r:m:M:F:d:gw:D:")) != -1) {
     switch (c) {
       case 't': nblock = atoi(optarg); break;
       case 's': nspin = atoi(optarg); break;
@@ -198,7 +205,17 @@ int main(int argc, char **argv) {
       case 'w': {   // K:VALUE  blocked thread K waits with this stack pointer
         int idx = atoi(optarg);
         const char *p = strchr(optarg, ':');
-        if (p && idx < MAXT) { forced[idx] = 1; forced_sp[idx] = strtoull(p + 1, NULL, 0); }
+        if (p && idx < MAXT) {
+          forced[idx] = 1;
+          if (p[1] == '-') { forced_rel[idx] = 1; forced_sp[idx] = strtoull(p + 2, NULL, 0); }
+          else forced_sp[idx] = strtoull(p + 1, NULL, 0);
+        }
+        break;
+      }
+      case 'D': {
+        int idx = atoi(optarg);
+        const char *p = strchr(optarg, ':');
+        if (p && idx >= 0 && idx < 64) { dname_len[idx] = unhex(p + 1, dname[idx]); if (dname_len[idx] > 63) dname_len[idx] = 63; }
         break;
       }
       case 'S': stack_size = strtoull(optarg, NULL, 0); break;
@@ -344,6 +361,7 @@ int main(int argc, char **argv) {
     rd->r_version = 1; rd->r_map = &lms[0]; rd->r_brk = 0x1234560; rd->r_ldbase = 0x7f0000001000;
     for (int i = 0; i < ndso; i++) {
       snprintf(lnames[i], 64, i == 0 ? "" : "/lib/synthetic/libdso%d.so.%d", i, i);
+      if (i > 0 && i < 64 && dname_len[i] >= 0) { memset(lnames[i], 0, 64); memcpy(lnames[i], dname[i], dname_len[i]); }
       lms[i].l_addr = 0x10000000ull * (i + 1);
       lms[i].l_name = i == 0 ? NULL : lnames[i];
       lms[i].l_ld = (ElfW(Dyn) *)(uintptr_t)(0x20000000ull * (i + 1) + 0x100);
@@ -364,11 +382,12 @@ int main(int argc, char **argv) {
   for (int i = 1; i < nthreads_total; i++) {
     pthread_attr_t at;
     pthread_attr_init(&at);
-    uint8_t *stk = mmap(NULL, stack_size + 2 * page, PROT_NONE, MAP_PRIVATE | MAP_ANONYMOUS | MAP_NORESERVE, -1, 0);
-    mprotect(stk + page, stack_size, PROT_READ | PROT_WRITE);      // guard pages on both sides
-    stack_lo[i] = (uint64_t)(uintptr_t)(stk + page);
+    uint8_t *stk = mmap(NULL, stack_size + (GUARD_PAGES + 1) * page, PROT_NONE, MAP_PRIVATE | MAP_ANONYMOUS | MAP_NORESERVE, -1, 0);
+    mprotect(stk + GUARD_PAGES * page, stack_size, PROT_READ | PROT_WRITE);      // guard pages on both sides
+    stack_lo[i] = (uint64_t)(uintptr_t)(stk + GUARD_PAGES * page);
     stack_hi[i] = stack_lo[i] + stack_size;
-    pthread_attr_setstack(&at, stk + page, stack_size);
+    if (forced_rel[i]) sh->regs[i].adj = stack_lo[i] - forced_sp[i];
+    pthread_attr_setstack(&at, stk + GUARD_PAGES * page, stack_size);
     pthread_t th;
     if (pthread_create(&th, &at, thread_main, (void *)(intptr_t)i) != 0) return 4;
   }
@@ -408,8 +427,12 @@ int main(int argc, char **argv) {
   printf("],\"nfds\":%d,\"dso\":{\"n\":%d,\"phdr\":%llu,\"phnum\":%d,\"dyn\":%llu,\"r_debug\":%llu,\"base\":%llu,\"maps\":[", nfds, ndso,
          (unsigned long long)dso_phdr, dso_phnum, (unsigned long long)dso_dyn, (unsigned long long)dso_rdebug, (unsigned long long)dso_base);
   for (int i = 0; i < ndso; i++)
-    printf("%s{\"l_addr\":%llu,\"l_ld\":%llu,\"name\":\"%s\"}", i ? "," : "", (unsigned long long)lms[i].l_addr,
-           (unsigned long long)(uintptr_t)lms[i].l_ld, lnames[i]);
+  {
+    printf("%s{\"l_addr\":%llu,\"l_ld\":%llu,\"name_hex\":\"", i ? "," : "", (unsigned long long)lms[i].l_addr,
+           (unsigned long long)(uintptr_t)lms[i].l_ld);
+    for (const char *c = lnames[i]; *c; c++) printf("%02x", (unsigned char)*c);
+    printf("\"}");
+  }
   printf("]},\"real_dso\":{\"dyn\":%llu,\"version\":%d,\"brk\":%llu,\"ldbase\":%llu,\"maps\":[", (unsigned long long)(uintptr_t)_DYNAMIC,
          _r_debug.r_version, (unsigned long long)_r_debug.r_brk, (unsigned long long)_r_debug.r_ldbase);
   {
